@@ -219,6 +219,41 @@ func init() {
 		}
 		return nil
 	}
+	// Concurrently(f): f is an activity of another thread of control started at this
+	// point. It runs to completion unless it has to wait for a lock that is held
+	// here; then its effects on locks are undone and false is returned (the caller
+	// re-runs it once the lock is free).
+	intrinsics[rtPkg+"Concurrently"] = func(in *Interp, caller *frame, _ *ssa.Function, a []Value) (res Value) {
+		depth := in.depth
+		stack := len(in.callStack)
+		saved := map[*Value]mutexState{}
+		for k, v := range in.mutexes {
+			saved[k] = *v
+		}
+		in.probing++
+		defer func() {
+			in.probing--
+			if r := recover(); r != nil {
+				if _, ok := r.(probeBlocked); ok {
+					in.depth = depth
+					in.callStack = in.callStack[:stack]
+					for k, v := range in.mutexes {
+						if s, ok := saved[k]; ok {
+							*v = s
+						} else {
+							*v = mutexState{}
+						}
+					}
+					res = in.tt.False
+					return
+				}
+				panic(r)
+			}
+		}()
+		in.call(caller, token.NoPos, a[0], nil)
+		return in.tt.True
+	}
+	intrinsics[rtPkg+"Join"] = func(in *Interp, _ *frame, _ *ssa.Function, a []Value) Value { return nil }
 	intrinsics[rtPkg+"PanicMsg"] = func(in *Interp, _ *frame, _ *ssa.Function, a []Value) Value {
 		if s, ok := in.scratch["lastPanic"].(string); ok {
 			return s
@@ -247,12 +282,18 @@ func init() {
 			}
 			if write {
 				if ms.writer || ms.readers > 0 {
+					if in.probing > 0 {
+						panic(probeBlocked{}) // a concurrent activity would wait here
+					}
 					in.res.addViolation(in, "deadlock", "Lock on a mutex already held by this thread of control at "+in.posStr(in.curPos), nil)
 					in.blocked("self-deadlock")
 				}
 				ms.writer = true
 			} else {
 				if ms.writer {
+					if in.probing > 0 {
+						panic(probeBlocked{})
+					}
 					in.res.addViolation(in, "deadlock", "RLock on a mutex write-held by this thread of control at "+in.posStr(in.curPos), nil)
 					in.blocked("self-deadlock")
 				}
